@@ -215,10 +215,13 @@ CLAIMED = {
         "arbitrary position, to the Lanczos process written as a spec function of the state (normalisation, alpha = <Aq,q>, three-term recurrence, two "
         "Gram-Schmidt passes with the conjugate on the basis vector, beta = ||w||), the stopping rule (i <= cap and Re beta_{i-1} > tol Re beta_1 for some column, "
         "or i <= 1), the initial state (v/||v||, zero buffers of the operator's dtype), the cap min(max_iters, n), the trimming that builds Q and the symmetric "
-        "tridiagonal T from the final state, and for lanczos_eigs: eigh applied to T, ascending values, Ritz vector i = Q y_sigma(i), every pair once.",
+        "tridiagonal T from the final state, and for lanczos_eigs: eigh applied to T, ascending values, Ritz vector i = Q y_sigma(i), every pair once. ORTHONORMALITY of the basis is proved "
+        "modularly (finite-sum algebra, sympy back end): (P1) the real do_gram on arbitrary data satisfies <vec_l, out> = (1 - ||vec_l||^2) <vec_l, w> for pairwise "
+        "orthogonal columns; (P2) the real body over that contract projects twice against the buffer with column i normalised and stores the second result in column i+1, "
+        "touching nothing else; (P3) the normalised buffer inherits the orthogonality hypothesis with unit column i. Real and complex.",
    design_ref="4.14",
-   note="That the specified process yields an orthonormal Krylov basis with T = Q^H A Q and A Q - Q T confined to the last column is the Lanczos theorem (Golub & Van Loan "
-        "Thm 10.1.1), ASSUMED and not formalised; it is additionally exercised by a bounded stand-in on the real code (n <= 40), labelled bounded. Exact arithmetic (no loss "
+   note="With orthonormality proved, what remains ASSUMED of the Lanczos theorem (Golub & Van Loan Thm 10.1.1) is T = Q^H A Q / the three-term relation (the "
+        "Gram-Schmidt corrections vanish for Hermitian A) and the Krylov-span / exhaustion clauses; it is additionally exercised by a bounded stand-in on the real code (n <= 40), labelled bounded. Exact arithmetic (no loss "
         "of orthogonality); batched start vectors need xnp.vmap (absent on NumPy); complex entries are opaque with conj/Re/|.|^2 uninterpreted.",
    technique="proxy execution of the real loop closures in an index-function domain with summation atoms (lambda terms); code-equals-spec-function obligations discharged by z3/cvc5; "
              "bounded execution of the real code for the theorem-level clauses",
